@@ -283,6 +283,7 @@ pub struct Ctx {
     pub vbytes: HashMap<u32, Vec<u8>>,
 }
 
+#[allow(dead_code)]
 fn model_expect(model: &mut Model, vhash: &dyn Fn(u32) -> [u8; 32]) -> Expect {
     model.expect_ok("viewcur");
     let dump = model.ask_multi("dump");
@@ -347,7 +348,9 @@ pub fn verify_dir(dir: &Path, cfg: &Cfg, cands: &[&Expect], keys: &[Key], vid_of
         }
     }
     // proofs for a sample of keys verify against the root
-    for k in keys.iter().step_by((keys.len() / 6).max(1)) {
+    // proofs read the merkle pages themselves (root and values alone do not): check them all for
+    // moderate key counts, a sample beyond
+    for k in keys.iter().step_by(if keys.len() <= 400 { 1 } else { keys.len() / 200 }) {
         use bitvec::prelude::*;
         match std::panic::catch_unwind(std::panic::AssertUnwindSafe(|| sess.prove(*k))) {
             Ok(Ok(p)) => {
@@ -373,11 +376,13 @@ pub struct IoScenario {
     pub label: String,
 }
 
-pub fn gen_io_scenario(rng: &mut Rng, thorough: bool) -> IoScenario {
+pub fn gen_io_scenario(rng: &mut Rng, thorough: bool, idx: usize) -> IoScenario {
     let mut kg = KeyGen::new(rng);
     let mut live = Live::default();
     let mut cfg = gen_cfg(rng);
-    cfg.rollback = rng.chance(2, 3);
+    // the target kind cycles with the scenario index so that every kind is covered in every run
+    let kind = (idx % 4) as u64;
+    cfg.rollback = kind == 3 || rng.chance(2, 3);
     cfg.max_len = *rng.pick(&[2u32, 3, 100]);
     cfg.ht = *rng.pick(&[1024u32, 4096]);
     cfg.cc = *rng.pick(&[1usize, 2, 4]);
@@ -393,10 +398,28 @@ pub fn gen_io_scenario(rng: &mut Rng, thorough: bool) -> IoScenario {
         c += 1;
         prefix.extend(commit_ops(s, c, b, false));
     }
+    // every third scenario: a sub-trie under one depth-2 page that the TARGET commit lifts across
+    // the page-elision threshold (an elided page becomes a stored one inside the interrupted commit)
+    let dense: Vec<Key> = if idx % 3 == 1 { kg.dense(rng, 12, 26) } else { vec![] };
+    if !dense.is_empty() {
+        let n0 = rng.range(15, 19) as usize;
+        let mut b: Vec<(Key, Acc)> = dense[..n0].iter().map(|k| (*k, Acc::Write(Some(gen_value(rng, ValueMix::Small))))).collect();
+        b.sort_by(|a, b| a.0.cmp(&b.0));
+        live.apply(&b);
+        s += 1;
+        c += 1;
+        prefix.extend(commit_ops(s, c, b, false));
+    }
     prefix.push(Op::Close);
-    let kind = rng.below(if cfg.rollback { 4 } else { 3 });
     let sz = rng.range(1, 40) as usize;
-    let b = gen_batch(rng, &mut kg, &live, &BatchSpec { size: sz, mix: ValueMix::Mixed, p_delete: 30, p_read: 5, p_rw: 30, p_existing: 60 });
+    let mut b = gen_batch(rng, &mut kg, &live, &BatchSpec { size: sz, mix: ValueMix::Mixed, p_delete: 30, p_read: 5, p_rw: 30, p_existing: 60 });
+    if !dense.is_empty() && kind != 3 {
+        for k in &dense[19..rng.range(21, 26) as usize] {
+            b.push((*k, Acc::Write(Some(gen_value(rng, ValueMix::Small)))));
+        }
+        b.sort_by(|a, b| a.0.cmp(&b.0));
+        b.dedup_by(|a, b| a.0 == b.0);
+    }
     s += 1;
     c += 1;
     let (prep, target, label) = match kind {
@@ -694,7 +717,7 @@ pub fn cmd_io(kv: &HashMap<String, String>) -> i32 {
     std::fs::create_dir_all(&replay_dir).ok();
     let t0 = std::time::Instant::now();
     let mut rng = Rng::new(seed);
-    let scen: Vec<(IoScenario, Rng)> = (0..n).map(|_| { let mut r = rng.fork(); (gen_io_scenario(&mut r, thorough), r) }).collect();
+    let scen: Vec<(IoScenario, Rng)> = (0..n).map(|i| { let mut r = rng.fork(); (gen_io_scenario(&mut r, thorough, i), r) }).collect();
     let scen = std::sync::Arc::new(std::sync::Mutex::new(scen.into_iter().enumerate().collect::<Vec<_>>()));
     let results = std::sync::Arc::new(std::sync::Mutex::new(Vec::new()));
     let mut hs = Vec::new();
